@@ -29,24 +29,30 @@ for _h, _b in (("predict_w1", "six command-4 runs of width 1 (orders 0,1,2 x imp
                ("predict_w4_explicit", "three command-4 runs of width 4, explicit strides 5,7,12, orders 0,1,2, lengths 5,6,11 (partial last element)")):
     K("icc." + _h, ["C18", "C01"], "jxl-color", _D, _DM, "icc_" + _h, "bounded:" + _b + ", all data bytes",
       _F + ["shuffle2", "shuffle4"], _PRED, kani_args=_NR)
-K("icc.predict_flags_any", ["C18", "C01"], "jxl-color", _D, _DM, "icc_predict_flags_any",
-  "bounded:command stream [no tags; 4 f 0; 1 x1] for all 256 flag bytes f, all data bytes", _F,
-  "Ok (zero-length run, then the copied byte) iff width code != 2 and order code != 3 and bit 4 clear (explicit stride 0 < width); else Err", kani_args=_NR)
-K("icc.predict_stride_reject", ["C18", "C01"], "jxl-color", _D, _DM, "icc_predict_stride_reject",
-  "bounded:three concrete command streams (width 2 stride 1; width 4 stride 3; width 1 stride 32 after 128 bytes), all data bytes", _F,
-  "explicit stride < width => Err; 4*stride >= bytes decoded so far => Err (stride 31 after 128 bytes is accepted in icc.predict_w1)", kani_args=_NR)
-K("icc.cmd_last_byte_any", ["C18", "C01"], "jxl-color", _D, _DM, "icc_cmd_last_byte_any",
-  "bounded:command stream [no tags; c] for all 256 command bytes c, no payload, all header bytes", _F,
-  "c in 16..=23 => Ok, profile == header ++ (c-16)-th common type ++ 0000; every other c => Err (unknown / truncated command / missing payload)", kani_args=_NR)
-K("icc.cmd_select_any", ["C18", "C01"], "jxl-color", _D, _DM, "icc_cmd_select_any",
-  "bounded:command stream [no tags; c 6] for all 256 command bytes c, 6 payload bytes, all data bytes", _F + ["shuffle2", "shuffle4"],
-  "c = 1/2/3 => Ok with copy / 2-shuffle / 4-shuffle of the payload; every other c => Err", kani_args=_NR)
-K("icc.cmd_short_data", ["C18", "C01"], "jxl-color", _D, _DM, "icc_cmd_short_data",
-  "bounded:[no tags; c 6] for all c with 5 payload bytes; [4 0 3] with 2 payload bytes; [1 6] with output_size 133", _F,
-  "payload shorter than the announced length => Err; one byte more than output_size at the end => Err", kani_args=_NR)
-K("icc.copy_len_any", ["C18", "C01"], "jxl-color", _D, _DM, "icc_copy_len_any",
-  "bounded:command stream [no tags; 1 n] for all 256 bytes n, 5 payload bytes, output_size 133", _F,
-  "Ok (header ++ payload) iff n == 5; n < 5 => Err (size mismatch at the end), 5 < n < 128 => Err (payload too short), n >= 128 => Err (unterminated varint)", kani_args=_NR)
+K("icc.predict_flags_reject", ["C18", "C01"], "jxl-color", _D, _DM, "icc_predict_flags_reject",
+  "bounded:two concrete command streams (flags 2 = width 3; flags 12 = order 3), all data bytes", _F, "Err", kani_args=_NR)
+K("icc.predict_stride_small", ["C18", "C01"], "jxl-color", _D, _DM, "icc_predict_stride_small",
+  "bounded:two concrete command streams (width 2 stride 1; width 4 stride 3), all data bytes", _F,
+  "explicit stride < width => Err (stride > width accepted in icc.predict_w*)", kani_args=_NR)
+K("icc.predict_stride_far", ["C18", "C01"], "jxl-color", _D, _DM, "icc_predict_stride_far",
+  "bounded:width 1 order 0 run of 3 bytes after exactly 128 decoded bytes, strides 31 and 32, all data bytes", _F,
+  "stride 31 => Ok, byte i == payload[i] + byte 31 positions earlier; stride 32 (4*stride >= bytes decoded so far) => Err", kani_args=_NR)
+K("icc.cmd_invalid", ["C18", "C01"], "jxl-color", _D, _DM, "icc_cmd_invalid",
+  "bounded:main-content command bytes 0 and 24, all data bytes", _F, "Err", kani_args=_NR)
+K("icc.cmd_invalid_more", ["C18", "C01"], "jxl-color", _D, _DM, "icc_cmd_invalid_more",
+  "bounded:main-content command bytes 5, 9, 11, 15, 129, 255, all data bytes", _F, "Err", tier="thorough", timeout=1200, kani_args=_NR)
+K("icc.short_payload_12", ["C18", "C01"], "jxl-color", _D, _DM, "icc_short_payload_12",
+  "bounded:commands 1 and 2 with length 6 and 5 payload bytes, all data bytes", _F, "Err", kani_args=_NR)
+K("icc.short_payload_34", ["C18", "C01"], "jxl-color", _D, _DM, "icc_short_payload_34",
+  "bounded:command 3 (6 announced, 5 present) and command 4 (3 announced, 2 present), all data bytes", _F, "Err", kani_args=_NR)
+K("icc.short_payload_10", ["C18", "C01"], "jxl-color", _D, _DM, "icc_short_payload_10",
+  "bounded:command 10 with 11 payload bytes, all data bytes", _F, "Err", kani_args=_NR)
+K("icc.end_size_mismatch", ["C18"], "jxl-color", _D, _DM, "icc_end_size_mismatch",
+  "bounded:[no tags; 1 x6] with output_size 133 and 135, all data bytes", _F,
+  "all commands and data consumed but decoded length != output_size => Err (both directions)", kani_args=_NR)
+K("icc.cmd_truncated", ["C18", "C01"], "jxl-color", _D, _DM, "icc_cmd_truncated",
+  "bounded:six concrete truncated command streams (no tag count; 1 without length; 4 without flags / stride / length; unterminated varint)", _F,
+  "Err", tier="thorough", timeout=1200, kani_args=_NR)
 K("icc.tag_literal", ["C18", "C01"], "jxl-color", _D, _DM, "icc_tag_literal",
   "bounded:command stream [1 tag; tagcode 1 without flags; end; 1 x20], all tag names and data bytes", _F,
   "entry == (name from the data stream, 128 + 12, 20 if the NAME is one of rXYZ gXYZ bXYZ kXYZ wtpt bkpt lumi else 0)", kani_args=_NR)
@@ -69,12 +75,17 @@ K("icc.tag_shortcuts", ["C18", "C01"], "jxl-color", _D, _DM, "icc_tag_shortcuts"
   "names == cprt wtpt bkpt rXYZ gXYZ bXYZ kXYZ rTRC gTRC bTRC kTRC chad desc chrm dmnd dmdd lumi; start chained; size 20 by name else inherited; "
   "commands ending inside the tag list with exactly output_size bytes is a valid end", kani_args=_NR)
 K("icc.tag_num_bound", ["C18", "C01"], "jxl-color", _D, _DM, "icc_tag_num_bound",
-  "bounded:output_size 164, tag-count varint 4, 5 and 1, empty tag list, all data bytes", _F,
-  "count written big-endian after the header; count > (output_size - 128) / 12 => Err; varint 1 => count 0 written", kani_args=_NR)
+  "bounded:output_size 164, tag-count varint 4 and 5, empty tag list, all data bytes", _F,
+  "count written big-endian after the header; count > (output_size - 128) / 12 => Err", kani_args=_NR)
+K("icc.tag_zero", ["C18", "C01"], "jxl-color", _D, _DM, "icc_tag_zero",
+  "bounded:output_size 164, tag-count varint 1 (zero tags), all data bytes", _F,
+  "count 0 is written, list terminated by tagcode 0, main content follows", kani_args=_NR)
 K("icc.tag_invalid_code", ["C18", "C01"], "jxl-color", _D, _DM, "icc_tag_invalid_code",
-  "bounded:command stream [1 tag; t] for all tag command bytes t with tagcode 21..=63 (any flags)", _F, "Err", kani_args=_NR)
+  "bounded:tag command bytes 21 and 63|flags", _F, "Err", kani_args=_NR)
 K("icc.tag_truncated", ["C18", "C01"], "jxl-color", _D, _DM, "icc_tag_truncated",
-  "bounded:three concrete truncated tag commands (literal name missing, start varint missing, size varint missing)", _F, "Err", kani_args=_NR)
+  "bounded:two concrete truncated tag commands (literal name missing, start varint missing)", _F, "Err", kani_args=_NR)
+K("icc.tag_truncated_more", ["C18", "C01"], "jxl-color", _D, _DM, "icc_tag_truncated_more",
+  "bounded:three more concrete tag commands (size varint missing x2, tagcode 40)", _F, "Err", tier="thorough", timeout=1200, kani_args=_NR)
 K("icc.tag_list_end_size", ["C18"], "jxl-color", _D, _DM, "icc_tag_list_end_size",
   "bounded:output_size 200, command stream [1 tag] ending inside the tag list, all header bytes", _F,
   "Ok only if exactly output_size bytes were produced (libjxl: 'Wrong output size')", kani_args=_NR)
